@@ -2,5 +2,5 @@
 from checks import seqcheck
 
 def main(tier, seed, replay):
-    return seqcheck.main("C07", "Properties/C07.v", tier, seed, replay, scenarios=['cache','recompute','pool','midround','straddle','legacy','storm','rcparallel'],
+    return seqcheck.main("C07", "Properties/C07.v", tier, seed, replay, scenarios=['cache','recompute','pool','midround','straddle','legacy','storm','rcparallel','cachefault'],
                          own_prefixes=tuple("C07,C02".split(",")), regen=True)
